@@ -266,6 +266,11 @@ pub struct WorkerResult {
     pub(crate) completed: bool,
 }
 
+thread_local! {
+    /// Directed scenarios: every operation of this thread goes to this container.
+    pub(crate) static FORCE_CONT: std::cell::Cell<Option<usize>> = const { std::cell::Cell::new(None) };
+}
+
 pub(crate) struct Worker<V: Val, S: StratExt<V>> {
     pub(crate) t: usize,
     pub(crate) rng: Rng,
@@ -400,6 +405,9 @@ impl<V: Val, S: StratExt<V>> Worker<V, S> {
     }
 
     fn pick_cont(&mut self) -> usize {
+        if let Some(c) = FORCE_CONT.with(|f| f.get()) {
+            return c;
+        }
         self.rng.below(self.conts.len() as u64) as usize
     }
 
